@@ -129,6 +129,10 @@ def main(argv):
                 rc = run_check(p, tier, seed)
                 worst = max(worst, rc)
         return worst
+    if cmd == 'reference':
+        from . import normalize
+        print(normalize.build_reference())
+        return 0
     if cmd == 'manifest':
         from . import manifest
         return manifest.main()
